@@ -2,12 +2,26 @@
 import json
 import re
 
-from ..common import Check, coq_eval, harness, harness1, CACHE, ALT
+from ..common import Check, harness, harness1, CACHE, ALT, Lock, coq_make
+from ..common import coq_eval as _coq_eval
 from ..translate import gen_serde, gen_entry
 from ..programs import POOL
 from . import c15_serde as S
 from .c15_programs import (COVER, ERRORS, NONFINITE, random_program, literal_edge_programs,
                            relation_literal_programs, compute_ref_programs, float_precision_programs)
+
+def coq_eval(header, exprs):
+    """coq_eval, robust against another property rebuilding a shared Model file in the middle of this run (Serde.v imports C08's
+    FloatRyu.v and C17's Lexer.v read-only): on `inconsistent assumptions` rebuild Props/C15.vo under the lock and retry once"""
+    try:
+        return _coq_eval(header, exprs)
+    except RuntimeError as ex:
+        if "inconsistent assumptions" not in str(ex) and "Cannot find a physical path" not in str(ex):
+            raise
+        with Lock("coq"):
+            coq_make(["Props/C15.vo"])
+        return _coq_eval(header, exprs)
+
 
 TRUSTED = [
     "Coq 8.16.1 kernel (coqc, vm_compute); no axioms: every theorem is 'Closed under the global context'",
